@@ -96,6 +96,8 @@ func dispatch(kind string, args []*Sexp) (out *Sexp) {
 		return runAbort09(args)
 	case "run02":
 		return runRun02(args)
+	case "exprcomp":
+		return runExprComp(args)
 	case "conc":
 		return runConc(args)
 	case "sharedump":
